@@ -213,6 +213,7 @@ def c16(ctx):
 def c04(ctx):
     t = ctx.tier
     mc(ctx, "DepLaws.tla", "DepLaws_%s.cfg" % t, what="RefParse(Render(model)) = model; arch names bijective")
+    mc(ctx, "DepParserMC.tla", "DepParserMC_%s.cfg" % t, what="transcribed parser.go refines RefParse, never hangs (all short strings)")
     g1 = gen(ctx, "DepGen.tla", "DepGen_dep_%s.cfg" % t, ctx.path("dep.ndjson"), what="rendered dependency models")
     r = hgen(ctx, "C04", ctx.path("rand.ndjson"), base=g1)
     judge(ctx, "C04", vf.cat(ctx.path("vec.ndjson"), g1, r), what="Parse vs reference parser")
